@@ -264,6 +264,13 @@ func modeAlphabet(full bool) []modeCall {
 				}
 				return t
 			}, func(s Format) Format { return s }),
+			// the New(...) option spelling with SEVERAL booleans: the last one is the mode, as in the setter and the method
+			modeCall{"New(name,WithJSONMode(false,true))", func(t *slog.Entry, seq int) (*slog.Entry, bool) {
+				return t.New(fmt.Sprintf("optft%d", seq), slog.WithJSONMode(false, true)), true
+			}, jsonNext(true)},
+			modeCall{"New(name,WithColorMode(true,false))", func(t *slog.Entry, seq int) (*slog.Entry, bool) {
+				return t.New(fmt.Sprintf("opttf%d", seq), slog.WithColorMode(true, false)), true
+			}, colorNext(false)},
 			// the package-level Reset() ("clear user settings": flags and the default level) while THIS logger is the
 			// process's default logger: no mode call, on nobody
 			set("slog.Reset() while the logger is the default logger", func(t *slog.Entry) *slog.Entry {
@@ -425,7 +432,11 @@ func c11run(c *Ctx, idx int, log *mon.Log, w mon.W, alpha []modeCall, steps []c1
 			}
 			// ... and some carry a group of attributes in the middle of their arguments
 			args := []any{"k", 1}
-			if (si+3*i)%4 == 1 {
+			if (si+i)%5 == 3 {
+				// ... or a severity as an attribute VALUE (a value like any other: it is no input of the record's shape)
+				args = []any{"k", 1, "lv", slog.WarnLevel, "lv2", slog.ErrorLevel}
+				c.R.Add("probes_with_a_level_valued_attribute", 1)
+			} else if (si+3*i)%4 == 1 {
 				args = []any{"k", 1, slog.Group("req", "method", "GET", "status", 200), "z", true}
 				c.R.Add("probes_with_a_group_attribute", 1)
 			}
